@@ -1,33 +1,31 @@
 #!/bin/bash
-# usage: try_seed.sh <tag> [props...]  - apply seeded patch to /repo, run checks, undo. Prints which checks fire.
-# Only NEW findings relative to the clean tree are shown (keys not present in the clean run).
+# usage: try_seed.sh <tag> [props...]
+# Apply a seeded patch to /repo, run the checks, undo. Prints DETECTED with the findings that are
+# new relative to the clean tree (same checks), or "missed".
 trap '' PIPE
 tag=$1; shift
 p=/verif/seeded/$tag/patch.diff
 [ -f $p ] || p=/tmp/seed/$tag/patch.diff
 props="$@"
 [ -n "$props" ] || props=$(ls /verif/sa/props | grep -o '^c[0-9]*' | tr a-z A-Z | sort -u)
-out=/tmp/try_seed_$$.txt; : > $out
 if [ -n "$(git -C /repo status --short)" ]; then echo "/repo is dirty, refusing"; exit 2; fi
-git -C /repo apply $p || { echo "cannot apply $p"; git -C /repo checkout -- .; exit 2; }
-for c in $props; do
-  (cd /verif && /venv/bin/python check.py $c > /tmp/try_seed_$$.$c 2>&1); rc=$?
-  if [ $rc -ne 0 ]; then
-     grep -E "violated|ANALYSIS-ERROR" /tmp/try_seed_$$.$c | sed "s/^/$c rc=$rc: /" >> $out
-  fi
-  rm -f /tmp/try_seed_$$.$c
-done
-git -C /repo checkout -- .
-# subtract the clean-tree baseline (same props, clean tree)
+norm() { grep -E "violated|ANALYSIS-ERROR" | sed -E "s/ at [^ ]+:[0-9]*://" ; }
 base=/tmp/try_seed_base_$$.txt; : > $base
 for c in $props; do
-  (cd /verif && /venv/bin/python check.py $c 2>&1 | grep -E "violated|ANALYSIS-ERROR" | sed -E "s/ at [^ ]+:[0-9]*://" >> $base)
+  (cd /verif && /venv/bin/python check.py $c 2>&1) | norm >> $base
 done
-sed -E "s/ at [^ ]+:[0-9]*://" >> $base)
-  done
+cleanup() { git -C /repo checkout -- . ; find /repo/src \( -name '*.orig' -o -name '*.rej' \) -delete ; }
+if ! git -C /repo apply $p 2>/dev/null; then
+  if ! (cd /repo && patch -p1 -s --fuzz=3 < $p >/dev/null 2>&1); then
+    echo "$tag: cannot apply $p"; cleanup; rm -f $base; exit 2
+  fi
 fi
-sed -E "s/ at [^ ]+:[0-9]*://" $out | sed -E 's/^C[0-9]+ rc=[0-9]: //' | sort -u > $out.n
-sort -u $base > $base.s
-new=$(comm -23 $out.n $base.s)
+find /repo/src \( -name '*.orig' -o -name '*.rej' \) -delete
+out=/tmp/try_seed_out_$$.txt; : > $out
+for c in $props; do
+  (cd /verif && /venv/bin/python check.py $c 2>&1) | norm >> $out
+done
+cleanup
+new=$(comm -23 <(sort -u $out) <(sort -u $base))
 if [ -n "$new" ]; then echo "$tag: DETECTED"; echo "$new" | cut -c1-230 | head -6; else echo "$tag: missed"; fi
-rm -f $out $out.n $base $base.s
+rm -f $out $base
